@@ -70,6 +70,7 @@ type zzFactory struct {
 	onCall  func(c zzCall)
 	next    int
 	faults  bool
+	partial bool // some assign call returned addresses together with an error
 	cloud4  map[netip.Addr]bool // addresses the cloud holds for the ENI (ghost)
 	cloud6  map[netip.Addr]bool
 	eniLive bool
@@ -135,12 +136,9 @@ func (f *zzFactory) assign(n int, v6 bool, name string) ([]netip.Addr, error) {
 	switch out {
 	case 1:
 		return nil, errZZCloud
-	case 2: // partial result together with an error
-		k := n - 1
-		if k < 1 {
-			k = 1
-		}
-		return f.fresh(k, v6), errZZCloud
+	case 2: // the cloud assigned the addresses but a later step (metadata wait) failed: addresses AND error
+		f.partial = true
+		return f.fresh(n, v6), errZZCloud
 	}
 	return f.fresh(n, v6), nil
 }
@@ -313,6 +311,7 @@ func zzOwned(slots []*zzSlot, pod string, v6 bool) int {
 // C01: ADD served from the pool (cache hit).  Two atomic sections: Allocate
 // marks the owner under the lock; a spawned goroutine later commits and
 // replies.  Between them other goroutines run (havoc under the rely).
+// zz:noreplay the schedule (goroutine hand-over points, other goroutines' steps) is chosen by the engine; a native run cannot be forced onto it
 func ZZ_C01_allocate_cached() {
 	n4 := 2
 	n6 := zz.Fork("n6", 2) * 2 // IPv4-only or dual stack
@@ -509,5 +508,104 @@ func ZZ_C01_sync_orders() {
 			want = ipStatusInvalid
 		}
 		zz.Assert(zz.And(s.ip.podID == s.owner, s.ip.status == want), "sync marks exactly the valid addresses missing from the cloud as invalid and changes no owner (any iteration order)")
+	}
+}
+
+// C01: ADD that has to wait for the factory (allocWorker).  The worker parks
+// on the condition variable; every time it wakes up other goroutines have run
+// (havoc under the rely); it must only ever commit addresses that are, at the
+// moment of the commit, its own or valid and unowned.
+// zz:noreplay the schedule (wake-ups of the condition variable, other goroutines' steps) is chosen by the engine
+func ZZ_C01_alloc_worker() {
+	n4 := 2
+	n6 := zz.Fork("n6", 2) // IPv4-only or dual stack with one IPv6 address
+	f := zzNewFactory(false)
+	l, slots := zzPool(n4, n6, f)
+	zz.Assume(zzInv(slots))
+	me := zzPods[0]
+	req := zzNewRequest()
+	l.allocatingV4 = append(l.allocatingV4, req)
+	if n6 > 0 {
+		l.allocatingV6 = append(l.allocatingV6, req)
+	}
+	ctx := zzNewCtx(false)
+	ch := make(chan *AllocResp)
+	waits := 0
+	maxWaits := 1
+	if zz.Tier() > 0 {
+		maxWaits = 2
+	}
+	// guarantee of every atomic section of this thread: the owner of an
+	// address changes only from "" to the requesting pod (grant) or from the
+	// requesting pod to "" (roll-back of an undelivered grant)
+	snap := make([]string, len(slots))
+	takeSnap := func() {
+		for i, s := range slots {
+			snap[i] = s.ip.podID
+		}
+	}
+	guarantee := func() bool {
+		ok := true
+		for i, s := range slots {
+			ok = zz.And(ok, zz.Or(s.ip.podID == snap[i], zz.And(snap[i] == "", s.ip.podID == me), zz.And(snap[i] == me, s.ip.podID == "")))
+		}
+		return ok
+	}
+	takeSnap()
+	zz.OnUnlock(l.cond.L, func() {
+		zz.Assert(zzInv(slots), "the pool invariant holds whenever the worker releases the lock")
+		zz.Assert(guarantee(), "while it holds the lock the worker never takes an address away from another pod")
+	})
+	first := true
+	// every re-acquisition of the lock after a Wait: other goroutines ran
+	zz.OnLock(l.cond.L, func() {
+		if first {
+			first = false
+			return
+		}
+		waits++
+		if waits > maxWaits {
+			zz.Assume(false) // bound on the number of wake-ups explored
+		}
+		zzHavoc(slots, me, strconv.Itoa(waits))
+		takeSnap()
+		if zz.Bool("ctx.cancelled.at.wakeup" + strconv.Itoa(waits)) {
+			select {
+			case <-ctx.done:
+			default:
+				close(ctx.done)
+			}
+		}
+	})
+	l.allocWorker(ctx, &daemon.CNI{PodID: me}, req, ch)
+	zz.OnLock(l.cond.L, nil)
+	zz.OnUnlock(l.cond.L, nil)
+	zz.Assert(zz.LockState(l.cond.L) == 0, "the pool lock is released when the worker ends")
+	zz.Assert(zzInv(slots), "the worker preserves the pool invariant")
+	pending := false
+	for _, r := range l.allocatingV4 {
+		pending = pending || r == req
+	}
+	for _, r := range l.allocatingV6 {
+		pending = pending || r == req
+	}
+	zz.Assert(!pending, "the finished request no longer counts as pending demand")
+	select {
+	case resp, ok := <-ch:
+		if !ok {
+			zz.Reach("worker-cancelled")
+			return
+		}
+		zz.Reach("worker-replied")
+		res := resp.NetworkConfigs[0].(*LocalIPResource)
+		got4 := l.ipv4[res.IP.IPv4]
+		zz.Assert(got4 != nil && got4.podID == me && got4.status != ipStatusDeleting, "the IPv4 address handed out is owned by the requesting pod and not scheduled for unassignment")
+		zz.Assert(zzOwned(slots, me, false) == 1, "the pod holds exactly one IPv4 address of this interface")
+		if n6 > 0 {
+			got6 := l.ipv6[res.IP.IPv6]
+			zz.Assert(got6 != nil && got6.podID == me && got6.status != ipStatusDeleting, "the IPv6 address handed out is owned by the requesting pod and not scheduled for unassignment")
+		}
+	default:
+		zz.Unreachable("the worker either replies or closes the channel")
 	}
 }
